@@ -8,6 +8,7 @@ package lifecycle
 //verif:closure of (*Service).runPipeline calling (*Service).recoverPipeline (nodesWg, rp, isGracefulShutdown, s) (ret)
 //verif:assume !is_fatal(global("tomb.ErrStillAlive")) because "tomb.ErrStillAlive is a plain sentinel created with errors.New; it contains no fatal marker"
 //verif:call[recover-only-transient] (*Service).recoverPipeline requires err$1 != global("tomb.ErrStillAlive") && !is_fatal(err$1) && !called("PipelineService.UpdateStatus")
+//verif:call[never-recover-a-run-the-user-stopped] (*Service).recoverPipeline requires called("(*Bool).Load@userStop") && !result_of("(*Bool).Load@userStop", 0)
 //verif:call[status-matches-cause] PipelineService.UpdateStatus requires (arg2 == StatusDegraded ==> is_fatal(err$1) || called("(*Service).recoverPipeline") && result_of("(*Service).recoverPipeline", 0) != nil) && arg2 != StatusRunning && arg2 != StatusRecovering && (is_fatal(result_of("tomb.(*Tomb).Err", 0)) ==> arg2 == StatusDegraded)
 //verif:call[record-result-before-unpublishing] (*Service).deleteRunningPipelineIfCurrent requires called("csync.(*Map).Set") && arg2 == deref(rp) && arg1 == deref(rp).pipeline.ID
 //verif:ensures[recovered-run-is-left-alone] called("(*Service).recoverPipeline") && result_of("(*Service).recoverPipeline", 0) == nil ==> ret == nil && !called("(*Service).deleteRunningPipelineIfCurrent") && !called("PipelineService.UpdateStatus") && !called("(*Service).notify")
@@ -55,6 +56,8 @@ package lifecycle
 // Stop acts on the published run and only when it is running or recovering.
 //verif:func (*Service).Stop(s, ctx, pipelineID, force) (err)
 //verif:call[graceful-on-published-run] (*Service).stopGraceful requires result_of("csync.(*Map).Get", 1) && arg2 == result_of("csync.(*Map).Get", 0) && !force
+//verif:call[user-stop-recorded-on-the-run-before-it-drains] (*Service).stopGraceful requires called("(*Bool).Swap@userStop")
+//verif:call[mark-withdrawn-only-if-the-stop-failed] (*Bool).Store@userStop requires !arg1 && called("(*Service).stopGraceful") && !succeeded("(*Service).stopGraceful")
 //verif:call[forceful-on-published-run] (*Service).stopForceful requires result_of("csync.(*Map).Get", 1) && arg2 == result_of("csync.(*Map).Get", 0) && force
 
 // The run is published (under the publication lock) before the status says
